@@ -14,7 +14,7 @@
    KEq   Real64 run vs Float64 run of a routine without a closed model: same values.
    KJac / KHes  the Jacobian / Hessian helpers on a catalogue of functions. *)
 From Coq Require Import List Bool Arith ZArith QArith Qabs Floats.
-From ADV Require Import Base.Num Base.Corr C06.Model C06.Model32 C06.ModelOpt C06.ModelHelp.
+From ADV Require Import Base.Num Base.Corr C06.Model C06.Model32 C06.ModelOpt C06.ModelHelp C06.ModelView.
 Import ListNotations.
 Local Open Scope nat_scope.
 
@@ -135,7 +135,10 @@ Inductive kase :=
       (xarg : list (msc float)) (out : option (nat * nat * list (list float))) (clean intact : bool)
 (* the statement list the translator produced from the source, the number of element-type copies of the
    function and the number of copies that are the Real64 text *)
-| KHSrc (which : nat) (sparse : bool) (prog : list hstmt) (copies agree : nat).
+| KHSrc (which : nat) (sparse : bool) (prog : list hstmt) (copies agree : nat)
+(* round 7: dense products on views (ModelView.v).  op: 0 MdotM / MDOTM, 1 MdotV / MDOTV, 2 VdotM / VDOTM; sp: the whole
+   memory (all backing arrays) before the call; out: the whole memory after the call (None: panic) *)
+| KPV (op k o : nat) (sp : list (option nat * float)) (va vb vr : view) (out : option (list slot)).
 
 (* Float32: math.Sqrt rounded once (SQRT of cholesky_float32; the generic routines on Float32 scalars go
    through Scalar.Sqrt = Pow(x, 0.5) as well, but the Cholesky family is the only square root reached on
@@ -284,6 +287,13 @@ Definition check (c : kase) : bool :=
          end
   | KHSrc which sparse prog copies agree =>
       hprog_eqb prog (src_helper which sparse) && (copies =? agree) && (9 <=? copies)
+  | KPV op k o sp va vb vr out =>
+      match view_prod (M5.nx (NumXJ NumDFg k o)) op (map (seed1 NumDFg k o) sp) va vb vr, out with
+      | None, None => true
+      | Some js, Some ss =>
+          (length js =? length ss) && forallb (fun p => slot_ok k o false 0%Q (fst p) (snd p)) (combine js ss)
+      | _, _ => false
+      end
   | KEq _ a b => list_eqb veqb a b
   | KF kind n sym tol vals aux grads => formula_ok kind n sym tol vals aux grads
   | KJac fid x jac xord =>
